@@ -9,6 +9,7 @@ from .common import Machinery
 
 pydicom = D.pydicom
 dm, sopclass, exceptions, statuses = S.dm, S.sopclass, S.exceptions, S.statuses
+applicationentity, pdu = D.applicationentity, D.pdu
 
 VERIF = '1.2.840.10008.1.1'
 CT = '1.2.840.10008.5.1.4.1.1.2'
@@ -53,6 +54,76 @@ def finish(tr, a):
 
 def rsp_events(a, total=0):
     return [{'ev': 'Rsp', 'r': w.record(), 'total': total} for w in a.dul.wire if isinstance(w, S.WireMsg)]
+
+
+# ------------------------------------------------------------------ the handler loop (dispatch)
+
+def run_handler_loop(rng, requests, ts_pairs=None):
+    """One REAL AssociationAcceptor (constructor = setup + handle = _establish + _loop) serving the library's own
+    verification and storage providers.  Verification is accepted on contexts 1 and 3, CT storage on 5 and 7 (each
+    pair with different transfer syntaxes), requests = [('echo'|'store', context id, message id)...] arrive in ONE
+    association, then the peer releases.  Returns one trace per request (Req, Handler, Rsp, End) + extra findings."""
+    from . import neglib as N
+    IMPL, EXPL, BIG = '1.2.840.10008.1.2', '1.2.840.10008.1.2.1', '1.2.840.10008.1.2.2'
+    ae = applicationentity.AE('SCP', 0, supported_ts=[IMPL, EXPL, BIG], max_pdu_length=16384, bind_and_activate=False)
+    try:
+        ae.server_close()
+    except Exception:      # noqa
+        pass
+    ae.add_scp(sopclass.verification_scp)
+    ae.add_scp(sopclass.storage_scp)
+    stored = []
+    ae.on_receive_echo = lambda context: statuses.SUCCESS
+    ae.on_receive_store = lambda context, ds: (stored.append(context.id), statuses.SUCCESS)[1]
+    a, b = (ts_pairs or (IMPL, EXPL))
+    ctxs = [{'id': 1, 'as': VERIF, 'ts': [a]}, {'id': 3, 'as': VERIF, 'ts': [b]},
+            {'id': 5, 'as': CT, 'ts': [a]}, {'id': 7, 'as': CT, 'ts': [b]}]
+    rq = pdu.AAssociateRqPDU.decode(N.rq_bytes('SCP', 'SCU', ctxs))
+    script = [rq]
+    reqs = []
+    for kind, ctx, mid in requests:
+        if kind == 'echo':
+            msg = S.decode_message(S.request_bytes(0x0030, mid, VERIF, has_data=False), b'', ctx)
+            reqs.append({'type': 0x0030, 'ctx': ctx, 'mid': mid, 'cls': VERIF, 'inst': '', 'svc': 'echo'})
+        else:
+            inst = D.make_uid(20, rng.randint(0, 9))
+            data = enc(instance(rng, 1))
+            msg = S.decode_message(S.request_bytes(0x0001, mid, CT, inst), data, ctx)
+            import io
+            msg.data_set = io.BytesIO(data)          # file-backed reception hands the service a file object
+            reqs.append({'type': 0x0001, 'ctx': ctx, 'mid': mid, 'cls': CT, 'inst': inst, 'svc': 'store'})
+        script.append((msg, ctx))
+    script.append(pdu.AReleaseRqPDU())
+    acc, dul, exc = N.run_handler(ae, 16384, script)
+    extra = {}
+    if exc is not None:
+        extra['raised'] = 'the handler raised %s: %s' % (type(exc).__name__, exc)
+    sent = dul.sent if dul is not None else []
+    msgs = []
+    for group in sent[1:]:
+        if len(group) == 1 and getattr(group[0], 'pdu_type', None) != 0x04:
+            continue                       # A-RELEASE-RP
+        cmd, data, ctx, ndata = b'', b'', None, 0
+        for p in group:
+            _, pdvs, _ = D.parse_pdata(p)
+            for c, h, payload in pdvs:
+                ctx = c if ctx is None else ctx
+                if c != ctx:
+                    extra['mixed'] = 'one response spread over contexts %r and %r' % (ctx, c)
+                if h & 1:
+                    cmd += payload
+                else:
+                    data += payload
+                    ndata += 1
+        msgs.append(S.WireMsg(ctx, cmd, data, ndata))
+    if len(msgs) != len(reqs):
+        extra['answered'] = '%d requests reached the handler, %d responses were sent' % (len(reqs), len(msgs))
+    traces = []
+    for q, w in zip(reqs, msgs):
+        svc = q.pop('svc')
+        traces.append([{'ev': 'Req', 'svc': svc, 'req': q}, {'ev': 'Handler', 'status': 0},
+                       {'ev': 'Rsp', 'r': w.record(), 'total': 0}, {'ev': 'End', 'sent': 1, 'drained': 1}])
+    return traces, extra
 
 
 # ------------------------------------------------------------------ simple providers
@@ -224,9 +295,12 @@ def run_find_scu(rng, mid, ctx, responses, final, worklist=False, wrapper=False)
     query = ident(rng)
     tr = [{'ev': 'Req', 'svc': 'mwl-scu' if worklist else 'find-scu', 'req': {'type': 0x0020, 'ctx': ctx, 'mid': mid, 'cls': sop, 'inst': ''}}]
     gen = (sopclass.modality_work_list_scu if worklist else sopclass.qr_find_scu)(a, S.ctx_def(ctx, sop), query, mid)
-    for ds, st in gen:
-        tr.append({'ev': 'Got', 'd': S.token(enc(ds)) if ds is not None else 0, 's': int(st), 'wire': wire})
     extra = {}
+    try:
+        for ds, st in gen:
+            tr.append({'ev': 'Got', 'd': S.token(enc(ds)) if ds is not None else 0, 's': int(st), 'wire': wire})
+    except Exception as exc:      # noqa - e.g. the user kept receiving after the final response until nothing was left
+        extra['raised'] = 'iterating the responses raised %s: %s' % (type(exc).__name__, exc)
     a.dul.drain()
     sent = [w for w in a.dul.wire if isinstance(w, S.WireMsg)]
     if len(sent) != 1 or sent[0].data != enc(query) or sent[0].type != 0x0020 or sent[0].u16(cmdset.TAG_MSG_ID) != mid or sent[0].ctx != ctx:
@@ -239,7 +313,7 @@ def run_find_scu(rng, mid, ctx, responses, final, worklist=False, wrapper=False)
 
 # ------------------------------------------------------------------ C-GET user
 
-def run_get_scu(rng, mid, ctx, plan, handler_outcomes, policy='eager'):
+def run_get_scu(rng, mid, ctx, plan, handler_outcomes, policy='eager', final=0x0000):
     """plan: list of ('store', pc_id, mid, size) / ('pending',) items, followed by the final C-GET-RSP."""
     ae = S.ScriptAE()
     ae.add_scu(sopclass.qr_get_scu)                      # context ids 1, 3, 5
@@ -270,7 +344,9 @@ def run_get_scu(rng, mid, ctx, plan, handler_outcomes, policy='eager'):
             oc_k = handler_outcomes[k] if k < len(handler_outcomes) else 0
             items.append({'d': S.token(data), 'ctx': pc, 'mid': smid, 'cls': pcs[pc], 'inst': inst, 'dest': 0, 'ehe': oc_k == 'EHE'})
             k += 1
-    replies.append((S.decode_message(S.response_bytes(0x8010, mid, GET, 0x0000), b'', ctx), ctx))
+    replies.append((S.decode_message(S.response_bytes(0x8010, mid, GET, final), b'', ctx), ctx))
+    # what the peer sends afterwards belongs to the next operation and must not be consumed
+    replies.append((S.decode_message(S.response_bytes(0x8030, mid, '1.2.840.10008.1.1', 0), b'', ctx), ctx))
     a = S.make_association(ae, policy, replies)
     # events in causal order: a C-STORE-RQ "arrives" when receive() hands it over
     arrived = {'n': 0}
@@ -299,6 +375,8 @@ def run_get_scu(rng, mid, ctx, plan, handler_outcomes, policy='eager'):
     except Exception as exc:      # noqa
         extra['raised'] = '%s: %s' % (type(exc).__name__, exc)
     a.dul.drain()
+    if len(a.dul.replies) != 1:
+        extra['overrun'] = 'the C-GET user consumed %d message(s) after the final C-GET response (status %#x)' % (1 - len(a.dul.replies), final)
     sent = [w for w in a.dul.wire if isinstance(w, S.WireMsg)]
     tr.append({'ev': 'End', 'sent': a.dul.sent_count, 'drained': len(sent)})
     return tr, extra
